@@ -173,7 +173,11 @@ pub fn cancellation() -> BoxedStrategy<Req> {
             // distinct pool entries (n <= pool size)
             let mut v: Vec<Entry> = (0..n).map(|k| honest_pool()[(start % np + k) % np].clone()).collect();
             let d = if d >= n { 1 + d % (n - 1).max(1) } else { d };
-            let i = i % n;
+            // the pair does not wrap around where it fits, and half of the cases pin it to the ends of the batch
+            // (first entry, or the last entry as the partner): a coefficient reused only for one index
+            // (seeded C13h: z_256 = z_0 from a refill off by one) needs exactly the pair (0, d)
+            let span = if d < n { n - d } else { n };
+            let i = match i & 3 { 0 => 0, 1 => span - 1, _ => (i >> 2) % span };
             let j = (i + d) % n;
             if i != j {
                 if swap {
